@@ -1422,7 +1422,46 @@ def check_cross(cx, kind, schema, ms, oks):
                 cx.fail(f"cross:numpy_value:{name}", f"ts.{name}_metadata[{i}] = {arr[i]!r} vs {_short(dec)}")
                 break
     check_transplant(cx, tc, special, ms, decoy)
+    check_handed_out_copies(cx, ms, oks)
     cx.acc.count("cross_table_collections")
+
+
+def _scribble(x):
+    """Overwrite every nested part of a schema dictionary in place."""
+    if isinstance(x, dict):
+        for k in list(x):
+            _scribble(x[k])
+            if k in ("type", "binaryFormat"):
+                x[k] = "string" if k == "type" else "x"
+            elif isinstance(x[k], (int, str, bool)) and k not in ("codec",):
+                x[k] = "scribbled"
+        x["verif-extra"] = {"type": "null"}
+    elif isinstance(x, list):
+        for y in x:
+            _scribble(y)
+        x.append("scribbled")
+
+
+def check_handed_out_copies(cx, ms, oks):
+    """The dictionaries a schema hands out (.schema, .asdict()) are the caller's to edit (the documented way
+    to derive a new schema): editing them - at any depth - must not change the schema they came from."""
+    vals = [copy.deepcopy(v) for v, _, _ in oks[:3]]
+    before = [_call(ms.validate_and_encode_row, copy.deepcopy(v)) for v in vals]
+    text = repr(ms)
+    for how in ("schema", "asdict"):
+        st, d = _call(lambda: ms.schema if how == "schema" else ms.asdict())
+        if st != "ok" or d is None:
+            continue
+        _scribble(d)
+        after = [_call(ms.validate_and_encode_row, copy.deepcopy(v)) for v in vals]
+        cx.acc.count("handed_out_copies_scribbled")
+        if repr(ms) != text:
+            cx.fail(f"aliasing:{how}:repr", f"editing the dictionary returned by .{how} changed the schema's string form")
+        for v, (s0, b0), (s1, b1) in zip(vals, before, after):
+            if s0 != s1 or (s0 == "ok" and b0 != b1):
+                cx.fail(f"aliasing:{how}:behaviour", f"after editing the dictionary returned by .{how}, "
+                        f"validate_and_encode_row({_short(v)}) gives {s1} {b1!r:.80}, before {s0} {b0!r:.80}")
+                break
 
 
 def _raw_md(t, j):
